@@ -119,6 +119,7 @@ fn main() {
         }));
     }
     let thorough = run.tier == Tier::Thorough;
+    vcommon::en::WRAP_LIES.store(true, std::sync::atomic::Ordering::Relaxed);
     let mut sink = Sink::new();
     let sfx = std_suffixes();
 
